@@ -85,7 +85,9 @@ class PersistentList(IPersistentList[T], ISeq[T], IWithMeta):
     def pop(self) -> "PersistentList[T]":
         if self.is_empty:
             raise IndexError("Cannot pop an empty list")
-        return cast(PersistentList, self.rest)
+        # `rest` is a seq operation (the empty seq for a one element list); `pop` is a
+        # list operation and returns a list
+        return PersistentList(self._inner.rest)
 
 
 EMPTY: PersistentList = PersistentList(plist())
